@@ -362,7 +362,9 @@ def create_for_folder_subcommand(
                                 missing_asc_mhl_folder.discard(not_found_path)
                                 missing_asc_mhl_folder.add(new_path)
                         found_file_paths.add(not_found_path)
-                else:
+                elif not os.path.isdir(new_path):
+                    # only files can be hashed again in the format of the missing path,
+                    # a new folder without a directory hash in that format cannot be compared
                     old_hash_format_for_new_path = hasher.hash_file(
                         os.path.join(root_path, new_path), not_found_path_hash.hash_format
                     )
